@@ -53,6 +53,10 @@ def configs(tier):
             for st in ('uniform', 'geometric', 'sequence'):
                 add(group='override', cls=cls, names='str', d=2, q=1, m=1 if st == 'sequence' else 2, mode=mode, upd=True,
                     storage=st, imputer='joint', _cost=30)
+    for cls in ('IncrementalSage', 'IncrementalPFI'):
+        for mode in ('static', 'dynamic'):
+            for st in ('batch', 'geometric', 'uniform', 'interval'):
+                add(group='fresh_flags', cls=cls, mode=mode, storage=st, d=2, q=1, T=3 if tier == 'quick' else 4, _cost=400)
     for cls in ('BatchSage', 'IntervalSage'):
         for nm in ('str', 'int', 'float', 'mixed'):
             for q in (1, 2):
@@ -232,3 +236,36 @@ def _batch(env, cfg):
     for (xx, yy, cp) in data:
         _unchanged(env, xx, cp, names, names_copy, '')
     env.claim('loss_was_called_positionally', len(loss.calls) > 0)
+
+
+def _fresh_flags(env, cfg):
+    """fresh explainer on a user-supplied storage; every pattern of update_storage flags over the first T calls,
+    with the user feeding the storage manually (public update_storage) whenever a call did not"""
+    cls = CLASSES[cfg['cls']]
+    log = Log()
+    b = build_incremental(env, cls, dict(cfg, m=0, cap=4, state='fresh', imputer='joint'), faults=log)
+    ex, names, storage = b['ex'], b['names'], b['storage']
+    expected = []           # observations the storage must have received, in order
+    for t in range(cfg['T']):
+        flag = env.choose(2, label=('update_storage', t)) == 1
+        x, y = sym_row(env, names, f"x{t}"), env.real(f"y{t}")
+        before = list(storage.get_data()[0])
+        log.sites.clear()
+        guarded(env, 'explain_one', ex.explain_one, x, y, update_storage=flag)
+        after = list(storage.get_data()[0])
+        if flag:
+            expected.append(x)
+            env.claim(f"storage_updated_exactly_once_t{t + 1}", log.sites.count('storage') == 1 and
+                      sum(1 for r in after if r is x) == 1)
+        else:
+            env.claim(f"storage_untouched_when_flag_off_t{t + 1}", log.sites.count('storage') == 0 and
+                      len(after) == len(before) and all(a is c for a, c in zip(after, before)),
+                      detail=f"call {t + 1} with update_storage=False, seen_samples before the call = {t}")
+            # the user stores the observation through the public method instead
+            guarded(env, 'update_storage', ex.update_storage, x, y)
+            expected.append(x)
+        env.claim(f"seen_samples_t{t + 1}", eq(ex.seen_samples, t + 1))
+        env.claim(f"model_evaluations_t{t + 1}", log.sites.count('model') == (0 if t == 0 else 1 + len(names)))
+        if cfg['storage'] in ('batch', 'interval'):
+            now = list(storage.get_data()[0])
+            env.claim(f"each_observation_stored_once_t{t + 1}", len(now) == len(expected) and all(a is c for a, c in zip(now, expected)))
